@@ -6,17 +6,24 @@ package c15
 import (
 	"context"
 	"fmt"
+	"maps"
 	"math/rand/v2"
+	"regexp"
+	"slices"
+	"strings"
 	"sync"
 	"testing"
 	"testing/synctest"
 	"time"
 
 	"github.com/cosi-project/runtime/pkg/controller"
+	cosiruntime "github.com/cosi-project/runtime/pkg/controller/runtime"
+	"github.com/cosi-project/runtime/pkg/controller/runtime/options"
 	"github.com/cosi-project/runtime/pkg/resource"
 	"github.com/cosi-project/runtime/pkg/state"
 
 	"verif/harness/gp"
+	"verif/harness/res"
 	"verif/harness/rtp"
 	"verif/harness/vk"
 )
@@ -50,7 +57,241 @@ func TestC15(t *testing.T) {
 		}
 
 		wg.Wait()
+
+		// white box (verif facade): the cache structure itself against a map model, fed the way the runtime feeds it, over an
+		// adversarial id alphabet (prefixes of each other, empty-looking, non-ASCII, case variants)
+		for k := 0; k < c.N(400, 40000); k++ {
+			wg.Add(1)
+			sem <- struct{}{}
+
+			go func() {
+				defer wg.Done()
+				defer func() { <-sem }()
+
+				synctest.Test(t, func(*testing.T) { whitebox(c, rand.New(rand.NewPCG(uint64(c.Seed)+15, uint64(k))), k) })
+			}()
+		}
+
+		wg.Wait()
 	})
+}
+
+var wbIDs = []string{"a", "aa", "ab", "b", "A", "a-", "a.", "a0", "é", "z", "zz", "0", "10", "9", "~"}
+
+// whitebox feeds one cached kind: bootstrap contents in the order a state delivers them (sorted by id), MarkBootstrapped, then puts
+// (create/update, incl. tearing-down) and removes in seeded order; after every step Get of every id, the full List, two filtered Lists
+// and Len must equal the model, early readers must have been blocked until MarkBootstrapped, and teardown-bound contexts must be
+// cancelled exactly for ids that are torn down / removed / absent.
+func whitebox(c *vk.C, rng *rand.Rand, k int) {
+	const ns, typ = "n1", res.TypeA
+
+	cache := cosiruntime.VerifNewResourceCache([]options.CachedResource{{Namespace: ns, Type: typ}})
+	ctx, cancel := context.WithCancel(context.Background())
+
+	defer cancel()
+
+	model := map[string]resource.Resource{}
+	seq := 0
+
+	var trace []string
+
+	fail := func(sig string, d map[string]any) {
+		d["mode"], d["ops"], d["k"] = "whitebox", trace, k
+		c.Violation(sig, d)
+	}
+
+	mk := func(id string, tearingDown bool) resource.Resource {
+		seq++
+
+		r := res.New(ns, typ, id)
+		res.SpecOf(r).Token = fmt.Sprint("w", seq)
+		r.Metadata().Labels().Set("odd", fmt.Sprint(seq%2))
+		r.Metadata().SetVersion(resource.VersionUndefined.Next())
+
+		if tearingDown {
+			r.Metadata().SetPhase(resource.PhaseTearingDown)
+		}
+
+		return r
+	}
+
+	// an early reader must block until the bootstrap is complete and then see all of it
+	early := make(chan int, 1)
+
+	go func() {
+		l, err := cache.List(ctx, resource.NewMetadata(ns, typ, "", resource.VersionUndefined))
+		if err != nil {
+			early <- -1
+
+			return
+		}
+
+		early <- len(l.Items)
+	}()
+
+	boot := slices.Clone(wbIDs)
+	rng.Shuffle(len(boot), func(i, j int) { boot[i], boot[j] = boot[j], boot[i] })
+	boot = boot[:rng.IntN(len(boot))]
+	slices.Sort(boot)
+
+	for _, id := range boot {
+		r := mk(id, false)
+		model[id] = r
+		cache.CacheAppend(r)
+
+		select {
+		case n := <-early:
+			fail("cached-read-served-before-bootstrap-complete", map[string]any{"items": n, "appended_so_far": len(model)})
+
+			return
+		default:
+		}
+	}
+
+	synctest.Wait() // the early reader is parked on the bootstrap
+
+	select {
+	case n := <-early:
+		fail("cached-read-served-before-bootstrap-complete", map[string]any{"items": n, "appended_so_far": len(model)})
+
+		return
+	default:
+	}
+
+	cache.MarkBootstrapped(ns, typ)
+
+	if n := <-early; n != len(boot) {
+		fail("cached-read-partial-bootstrap-view", map[string]any{"items": n, "bootstrap_size": len(boot)})
+
+		return
+	}
+
+	c.Count("whitebox_early_readers", 1)
+
+	type tdw struct {
+		id  string
+		ctx context.Context //nolint:containedctx
+	}
+
+	var waiters []tdw
+
+	for step := 0; step < 20+rng.IntN(40); step++ {
+		id := wbIDs[rng.IntN(len(wbIDs))]
+
+		switch p := rng.IntN(10); {
+		case p < 5:
+			r := mk(id, rng.IntN(5) == 0)
+			model[id] = r
+			cache.CachePut(r)
+			trace = append(trace, fmt.Sprintf("put %q td=%v", id, r.Metadata().Phase() == resource.PhaseTearingDown))
+		case p < 8:
+			if cur, ok := model[id]; ok {
+				delete(model, id)
+				cache.CacheRemove(cur)
+				trace = append(trace, fmt.Sprintf("remove %q", id))
+			} else {
+				cache.CacheRemove(mk(id, false)) // a Destroyed event for something the cache never had
+				trace = append(trace, fmt.Sprintf("remove-unknown %q", id))
+			}
+		default:
+			tctx, err := cache.ContextWithTeardown(ctx, resource.NewMetadata(ns, typ, id, resource.VersionUndefined))
+			if err != nil {
+				fail("cached-teardown-context-failed", map[string]any{"id": id, "err": err.Error()})
+
+				return
+			}
+
+			waiters = append(waiters, tdw{id, tctx})
+			trace = append(trace, fmt.Sprintf("ctx-with-teardown %q", id))
+		}
+
+		c.Count("whitebox_steps", 1)
+
+		// reads == model
+		for _, x := range wbIDs {
+			got, err := cache.Get(ctx, resource.NewMetadata(ns, typ, x, resource.VersionUndefined))
+			want, ok := model[x]
+
+			switch {
+			case ok && (err != nil || res.Token(got) != res.Token(want) || got.Metadata().Phase() != want.Metadata().Phase()):
+				fail("cache-differs-from-model", map[string]any{"id": x, "read": "Get", "err": fmt.Sprint(err), "want_token": res.Token(want)})
+
+				return
+			case !ok && !state.IsNotFoundError(err):
+				fail("cache-differs-from-model", map[string]any{"id": x, "read": "Get", "note": "absent in the model", "err": fmt.Sprint(err)})
+
+				return
+			}
+		}
+
+		for fi, lo := range [][]state.ListOption{nil, {state.WithLabelQuery(resource.LabelEqual("odd", "1"))}, {state.WithIDQuery(resource.IDRegexpMatch(regexp.MustCompile("^a")))}} {
+			l, err := cache.List(ctx, resource.NewMetadata(ns, typ, "", resource.VersionUndefined), lo...)
+			if err != nil {
+				fail("cache-differs-from-model", map[string]any{"read": "List", "err": err.Error()})
+
+				return
+			}
+
+			want := map[string]string{}
+
+			for x, r := range model {
+				if fi == 1 && r.Metadata().Labels().Raw()["odd"] != "1" || fi == 2 && !strings.HasPrefix(x, "a") {
+					continue
+				}
+
+				want[x] = res.Token(r)
+			}
+
+			got := map[string]string{}
+			for _, it := range l.Items {
+				if _, dup := got[it.Metadata().ID()]; dup {
+					fail("cached-list-duplicate", map[string]any{"id": it.Metadata().ID(), "filter": fi})
+
+					return
+				}
+
+				got[it.Metadata().ID()] = res.Token(it)
+			}
+
+			if !maps.Equal(got, want) {
+				fail("cache-differs-from-model", map[string]any{"read": "List", "filter": fi, "got": got, "want": want})
+
+				return
+			}
+		}
+
+		if n := cache.Len(ns, typ); n != len(model) {
+			fail("cache-differs-from-model", map[string]any{"read": "Len", "got": n, "want": len(model)})
+
+			return
+		}
+
+		// teardown-bound contexts: cancelled iff the id was absent / tearing down at the call, or was torn down / removed since
+		// (the cancellation is carried out by a goroutine of the cache: let it run)
+		synctest.Wait()
+
+		keep := waiters[:0]
+
+		for _, w := range waiters {
+			cur, ok := model[w.id]
+			gone := !ok || cur.Metadata().Phase() == resource.PhaseTearingDown
+
+			switch {
+			case w.ctx.Err() != nil:
+				c.Count("whitebox_teardown_contexts_cancelled", 1) // (a cancelled context was legitimately cancelled at some point: ids only move towards gone-ness between checks)
+			case gone:
+				fail("cached-teardown-context-not-cancelled", map[string]any{"id": w.id})
+
+				return
+			default:
+				keep = append(keep, w)
+			}
+		}
+
+		waiters = keep
+	}
+
+	c.Case(vk.Hash("wb", k, len(trace)), true)
 }
 
 type tdRec struct {
